@@ -59,6 +59,12 @@ EXT = [
  ("Xyz<E>", "palette::Xyz<palette::white_point::E, {T}>"),
  ("Lchuv<D50>", "palette::Lchuv<D50, {T}>"),
  ("Hsluv<D50>", "palette::Hsluv<D50, {T}>"),
+ # luma of other standards / white points (cross-standard shortcut in luma/luma.rs, per-standard transfer functions)
+ ("Luma<Rec709>", "palette::luma::Luma<Rec709, {T}>"),
+ ("Luma<AdobeRgb>", "palette::luma::Luma<AdobeRgb, {T}>"),
+ ("Luma<Rec2020>", "palette::luma::Luma<Rec2020, {T}>"),
+ ("Luma<DciP3>", "palette::luma::Luma<DciP3, {T}>"),
+ ("LinLuma<D50>", "palette::LinLuma<D50, {T}>"),
 ]
 SPACES = K18 + EXT
 IDX = {n: i for i, (n, _) in enumerate(SPACES)}
@@ -105,6 +111,11 @@ both("Xyz<A>", "Lab<A>"); both("Xyz<E>", "Luv<E>")
 # Oklab <-> RGB standards (direct matrices for sRGB primaries, XYZ otherwise)
 both("Oklab", "AdobeRgb"); both("Oklab", "LinRec2020"); both("Oklab", "Rec709"); both("Oklch", "DisplayP3"); both("Okhsv", "Rec709")
 both("Lms<Bradford>", "Xyz"); both("Lms<Bradford>", "Srgb")
+both("Luma<Rec709>", "Luma"); both("Luma<Rec709>", "Xyz"); both("Luma<Rec709>", "Rec709"); both("Luma<Rec709>", "LinLuma"); both("Luma<Rec709>", "Srgb")
+both("Luma<AdobeRgb>", "AdobeRgb"); both("Luma<AdobeRgb>", "Luma"); both("Luma<AdobeRgb>", "Yxy"); both("Luma<AdobeRgb>", "LinAdobeRgb")
+both("Luma<Rec2020>", "Rec2020"); both("Luma<Rec2020>", "LinRec2020"); both("Luma<Rec2020>", "Luma<Rec709>"); both("Luma<Rec2020>", "Lab")
+both("Luma<DciP3>", "Xyz<DciWhite>"); both("Luma<DciP3>", "DciP3"); both("Luma<DciP3>", "LinDciP3")
+both("LinLuma<D50>", "Xyz<D50>"); both("LinLuma<D50>", "ProPhoto"); both("LinLuma<D50>", "Lab<D50>"); both("LinLuma<D50>", "Yxy<D50>")
 both("Lab", "Rec2020"); both("Lch", "AdobeRgb"); both("Luv", "LinRec2020"); both("Hsluv", "AdobeRgb")
 
 out = []
@@ -112,7 +123,7 @@ out.append("// GENERATED by tools/gen_types.py - do not edit by hand.")
 out.append("pub const SPACE_NAMES: &[&str] = &[%s];" % ", ".join('"%s"' % n for n, _ in SPACES))
 out.append("pub const N_K18: usize = %d;" % len(K18))
 for n, t in SPACES:
-    if n in ("Luma", "LinLuma"):
+    if n.split("<")[0] in ("Luma", "LinLuma"):
         for T in ("f32", "f64"):
             out.append("tri1!(%s, %s);" % (t.format(T=T), T))
     else:
